@@ -39,8 +39,11 @@ THang == Consume("hang") /\ UNCHANGED vars
 TUpd == /\ Consume("upd") /\ pc = "key"
         /\ LET t == E.t
                d == data[t]
-           IN  /\ IF E.d = "flow" THEN FlowOK(d) /\ E.f = Cardinality(d.flows) + 1 ELSE GrowOK(d, E.f)
-               /\ data' = [data EXCEPT ![t] = [(IF E.d = "flow" THEN FlowRec(d) ELSE GrowRec(d, E.f)) EXCEPT !.addrs = Pad(E.addrs)]]
+           IN  /\ IF E.d = "flow" THEN FlowOK(d) /\ E.f = Cardinality(d.flows) + 1
+                  ELSE IF E.d = "addr" THEN E.f < d.hops[0]
+                  ELSE GrowOK(d, E.f)
+               /\ data' = [data EXCEPT ![t] = [(IF E.d = "flow" THEN FlowRec(d) ELSE IF E.d = "addr" THEN d ELSE GrowRec(d, E.f))
+                                                  EXCEPT !.addrs = Pad(E.addrs)]]
         /\ DataUnch
 
 TKey == /\ Consume("key")
